@@ -4,9 +4,9 @@ server.serveSession (Accept loop, proxy dial per stream, the two copy directions
 TLC decides the properties on the model (exhaustive, small constants; negative configurations show each invariant is
 not vacuous); behaviours of RelayGen are replayed against the real RouteTCP + client.MakeSession + dispatchConnection /
 serveSession in testing/synctest bubbles (harness/server/x02_test.go)."""
+import copy
 import json
 import os
-import time
 from concurrent.futures import ThreadPoolExecutor
 
 import lib
@@ -65,6 +65,30 @@ NEGATIVES = [
 ]
 # holds once the deviation DialFailKillsSession is idealised away (shows NeighbourStrict is the right statement of it)
 POSITIVE_DEV = [("dialfail_streamonly", C(nconn=2, feat="prio,dialfail", dev="DialFailStreamOnly", inv=INV + " NeighbourStrict"))]
+
+
+UINV = "NoCross OrderInv TableSound QuiesceInv RenewInv SingleInv"
+
+
+def CU(src="1,2", data=2, streams=3, sess=2, reply=1, single=False, dev="", inv=UINV):
+    return {"SRC": src, "MAXDATA": data, "MAXSTREAM": streams, "MAXSESS": sess, "MAXREPLY": reply,
+            "SINGLE": "TRUE" if single else "FALSE", "DEV": q(dev), "INV": inv}
+
+
+# RouteUDP (spec/RelayUDP.tla): (tag, constants, expected violated invariant or None)
+UDP_RUNS_QUICK = [
+    ("udp_1src", CU(src="1", data=3, streams=3), None),
+    ("udp_single", CU(src="1", data=3, streams=3, single=True, sess=3), None),
+    ("udp_neg_orphan_as_is", CU(inv="NoOrphan"), "NoOrphan"),                     # DEVIATION StaleDelete
+    ("udp_neg_atmostone_as_is", CU(src="1", data=3, inv="AtMostOne"), "AtMostOne"),
+    ("udp_neg_sharedaddr", CU(dev="SharedAddr", inv="NoCross"), "NoCross"),
+    ("udp_neg_nodelete", CU(dev="NoDelete", inv="TableSound QuiesceInv"), "TableSound"),
+]
+UDP_RUNS_THOROUGH = UDP_RUNS_QUICK + [
+    ("udp_2src", CU(), None),
+    ("udp_2src_single", CU(single=True, sess=3), None),
+    ("udp_2src_byidentity", CU(dev="DeleteByIdentity", inv=UINV + " NoOrphan AtMostOne"), None),
+]
 
 
 def mc_list(quick):
@@ -226,6 +250,9 @@ def model_check(ctx, quick):
             continue
         jobs.append(("neg", tag, inv, pool.submit(lib.run_tlc, ctx, "Relay", "Relay_mc.cfg", cfg, tag="neg_" + tag, timeout=600,
                                                    workers=2, expect_violation=True, env=JVM_SHORT)))
+    for tag, cfg, inv in (UDP_RUNS_QUICK if quick else UDP_RUNS_THOROUGH):
+        jobs.append(("neg" if inv else "mc", tag, inv, pool.submit(lib.run_tlc, ctx, "RelayUDP", "RelayUDP_mc.cfg", cfg, tag=tag, timeout=1800,
+                                                                   workers=4, expect_violation=bool(inv), env=JVM_SHORT if inv else JVM_LONG)))
     if not quick:
         for tag, cfg in POSITIVE_DEV:
             jobs.append(("mc", tag, None, pool.submit(lib.run_tlc, ctx, "Relay", "Relay_mc.cfg", cfg, tag="mc_" + tag, timeout=900, workers=4,
@@ -278,8 +305,18 @@ def judge(ctx, res, expect_n=None):
 def run(ctx):
     quick = ctx.quick()
     inp = os.path.join(ctx.work, "behaviours.ndjson")
-    bg = ThreadPoolExecutor(max_workers=1)
+    bg = ThreadPoolExecutor(max_workers=3)
     gofut = bg.submit(go_replay, ctx, inp)           # builds while TLC works; the test waits for <input>.ready
+    # RouteUDP (spec/RelayUDP.tla): scenarios on the real code with loopback sockets, real time
+    # (own work directory: lib.run_go writes its overlay description to <work>/overlay.json, concurrent runs must not share it)
+    uctx, pctx = copy.copy(ctx), copy.copy(ctx)
+    uctx.work, pctx.work = os.path.join(ctx.work, "udp"), os.path.join(ctx.work, "udp_probe")
+    os.makedirs(uctx.work)
+    os.makedirs(pctx.work)
+    udpfut = bg.submit(lib.run_go, uctx, "client", "TestVerifX02UDP", timeout=1200, harness_dirs=["client"], tag="udp")
+    # thorough: look for the model's StaleDelete on the real code (a probe: it only counts, see x02.NOTES.md)
+    probefut = None if quick else bg.submit(lib.run_go, pctx, "client", "TestVerifX02UDPStaleDelete", timeout=2400, harness_dirs=["client"],
+                                            tag="udp_probe", env={"X02_UDP_ROUNDS": 800})
     # X02_PART=replay (debugging aid, e.g. for trying mutants on a busy machine): generators + replay only
     only_replay = os.environ.get("X02_PART") == "replay"
     try:
@@ -310,8 +347,28 @@ def run(ctx):
     except BaseException:
         open(inp + ".ready", "w").close()            # let the waiting test end
         raise
+    udp = udpfut.result()
+    for v in udp.get("violations", []):
+        if v.get("key") in KEYS:
+            ctx.violations.append(v)
+    ustats = udp.get("stats", {})
     res = gofut.result()
     stats = judge(ctx, res, expect_n=len(uniq))
+    if not ctx.violations:
+        if udp.get("_died") or not udp.get("complete", False):
+            raise lib.Inconclusive("UDP scenario driver died: %s" % udp.get("_stdout_tail"))
+        if ustats.get("diverged", 0):
+            raise lib.Inconclusive("UDP scenarios: %s" % "; ".join(udp.get("notes") or []))
+    if ustats.get("skipped"):
+        ctx.notes.append("loopback UDP not available: RouteUDP scenarios skipped")
+    ctx.log("udp: %d scenario checks on the real RouteUDP, violations %d, stats %s" % (udp.get("evaluations", 0), len(udp.get("violations", [])), ustats))
+    probe_stats = None
+    if probefut is not None:
+        try:
+            probe_stats = probefut.result().get("stats", {})
+            ctx.log("udp StaleDelete probe: %s" % probe_stats)
+        except lib.Inconclusive as e:
+            ctx.notes.append("StaleDelete probe did not finish: %s" % str(e)[:200])
     ctx.log("replay: %d behaviours, %d steps, diverged %d, violations %d" % (
         res.get("evaluations", 0), stats.get("steps", 0), stats.get("diverged", 0), len(res.get("violations", []))))
     if only_replay:
@@ -320,7 +377,9 @@ def run(ctx):
                 "samples": res.get("samples", [])[:3], "traces_validated_against_impl": res.get("evaluations", 0),
                 "exhaustive": summary["exhaustive"], "negatives": summary["negatives"], "behaviours_per_generator": per_gen,
                 "confluence_schedules": n_conf, "deviation_scenarios_bound": [s[0] for s in SCENARIOS],
-                "replay_stats": {k: v for k, v in stats.items() if not k.startswith("violations")}}
+                "replay_stats": {k: v for k, v in stats.items() if not k.startswith("violations")},
+                "udp_scenarios": {"checks": udp.get("evaluations", 0), "stats": ustats, "notes": udp.get("notes", [])},
+                "udp_staledelete_probe": probe_stats}
     return lib.finish(ctx, LEVEL, coverage, ASSUME)
 
 
